@@ -196,6 +196,32 @@ def check_case(case):
               str(raised_again) == msg, 'second-identical-call-differs',
               lambda: f'first: {msg!r}\nsecond: {raised_again!r}, body ran: '
                       f'{len(built.log) > n_before}')
+      if case.get('namesake'):
+        # a configurable with the same short name is registered in another module, and the call
+        # fails once more: the error still *names* the configurable, i.e. the name it reports
+        # resolves to this configurable and to nothing else
+        short = built.selector.split('.')[-1]
+        gin.external_configurable(lambda: None, short, module='c10namesake.pkg')
+        try:
+          built.call(args, kwargs)
+          raised3 = None
+        except (RuntimeError, ValueError, TypeError) as e:
+          raised3 = e
+        require(isinstance(raised3, RuntimeError), 'missing-required-not-reported',
+                lambda: f'after a namesake was registered: {raised3!r}')
+        reported = re.search(r'`([^`]+)`', str(raised3))
+        require(reported is not None, 'error-does-not-name-configurable', str(raised3))
+        try:
+          target = gin.get_configurable(reported.group(1))
+        except Exception as e:  # pylint: disable=broad-except
+          raise Violation('error-names-an-unresolvable-configurable',
+                          f'{str(raised3)!r}: {type(e).__name__}: {e}')
+        rep = reported.group(1)
+        require(built.selector == rep or built.selector.endswith('.' + rep),
+                'error-names-another-configurable',
+                lambda: f'{str(raised3)!r} names {rep!r} (-> {target!r}), the call was to '
+                        f'{built.selector}')
+        labels.add('namesake-registered-between-two-failures')
       partial = any(p in app for p in marked)
       nt = len(kinds) >= 2 and partial
       if nt:
@@ -350,7 +376,8 @@ def strategy(draw):
     # a surplus positional argument with an unhelpful == (mock.ANY, an array): it is not the marker
     odd = [draw(st.integers(len(positional), n_pos - 1))]
   return {'shape': shape, 'entries': entries, 'bindings': bindings, 'args': args,
-          'kwargs': kwargs, 'kwargs_order': list(order), 'odd_args': odd}
+          'kwargs': kwargs, 'kwargs_order': list(order), 'odd_args': odd,
+          'namesake': draw(st.integers(0, 2)) == 0}
 
 
 def sweep(tier):
